@@ -623,7 +623,7 @@ def replay_externalize(inputs, ob):
     min_obligations=12,
 )
 def externalize_batch(S):
-    from vgi_rpc._codec import Encoding, compress
+    from vgi_rpc._codec import compress
 
     rows, size, thr = S.int("num_rows"), S.int("buffer_size"), S.int("threshold")
     S.assume(rows >= 0)
